@@ -50,16 +50,24 @@ func options(n int, long bool) cfsim.GenOptions {
 	return o
 }
 
-// importOnly: every sixth history belongs to the import-only family (internal/cfsim/importonly.go:
-// the only wallet of the database is being restored when the process stops, the node is
-// reorganised and grows while it is down); one in eight of those is long enough for the node to
-// end more than 2000 blocks above the stored tip (Start's fast-forward). With 48 histories in
-// the quick tier and 8 worker processes every worker gets one of them.
+// importOnly: among the first 48 histories (the quick tier) every sixth one belongs to the import-only
+// family (internal/cfsim/importonly.go: the only wallet of the database is being restored when the
+// process stops, the node is reorganised and grows while it is down), beyond them every 24th; one in
+// eight of the first and one in four of the others is long enough for the node to end more than 2000
+// blocks above the stored tip (Start's fast-forward). With 48 histories and 8 worker processes every
+// worker gets one of them.
 func importOnly(n int) (member, ff bool) {
 	if n%6 != 4 {
 		return false, false
 	}
-	return true, (n/6)%8 == 2
+	m := n / 6
+	if n < 48 {
+		return true, m%8 == 2
+	}
+	if m%4 != 0 {
+		return false, false
+	}
+	return true, m%16 == 4
 }
 
 func emitModel(w *bufio.Writer, id string, lines []string) {
